@@ -29,6 +29,8 @@ import (
 
 const nKeys = 8
 
+var bigKey int // keys of the big records (the databases outlive the scenarios)
+
 // side is one way of accessing a database
 type side struct {
 	name    string
@@ -51,11 +53,12 @@ type result struct {
 }
 
 func setupDb() *db19.Database {
-	db := cs.NewDb(
+	db := cs.NewDbChunk(4*1024*1024, // large records (many mux frames) must fit
 		"create tm (k, v) key(k)",
 		"create big (a, b, c, d) key(a) index(b)",
 		"create other (a, x) key(a)",
-		"create wide (a, s) key(a)",
+		"create stat (a, x) key(a)",
+		"create mwide (a, s) key(a)",
 		"create stdlib (name, group, text, num) key(name, group) key(num)")
 	cs.Action(db, "insert { name: 'Foo', group: -1, text: 'function () { 123 }', num: 1 } into stdlib")
 	for i := 0; i < 12; i++ {
@@ -63,6 +66,9 @@ func setupDb() *db19.Database {
 	}
 	for i := 0; i < 6; i++ {
 		cs.Action(db, fmt.Sprintf("insert { a: %d, x: 'x%d' } into other", i*2, i))
+		// stat is never modified by the scripts: only its indexes are altered
+		// (index creation right after commits on the same table is C06/C16's subject)
+		cs.Action(db, fmt.Sprintf("insert { a: %d, x: 'x%d' } into stat", i, i%3))
 	}
 	return db
 }
@@ -130,9 +136,10 @@ func newSide(name string, db *db19.Database, local *dbms.DbmsLocal, d core.IDbms
 // ---------------------------------------------------------------- script
 
 type mtran struct {
-	upd   bool
-	view  map[int]int
-	ended bool
+	upd    bool
+	view   map[int]int
+	ended  bool
+	hasOff map[int]bool // keys whose current record offset the script holds (from Get1 / Upd)
 }
 
 type script struct {
@@ -196,6 +203,9 @@ func (sc *script) op(name string, h int, upd bool, k, v int, f func(s *side) res
 // pair executes any other operation on both sides and logs one Pair event
 func (sc *script) pair(name, arg string, f func(s *side) result) (rl, rr result) {
 	sc.step++
+	if os.Getenv("VERIF_DEBUG") != "" {
+		fmt.Fprintf(cs.RealStderr, "step %d %s %s\n", sc.step, name, arg)
+	}
 	rl = call(func() result { return f(sc.L) })
 	rr = call(func() result { return f(sc.R) })
 	sc.tr.Emit(vh.E("Pair", "i", sc.step, "op", name, "arg", trunc(arg), "clsL", rl.cls, "clsR", rr.cls,
@@ -270,7 +280,7 @@ func (sc *script) begin(upd bool) int {
 	for k, v := range sc.model {
 		view[k] = v
 	}
-	sc.open[h] = &mtran{upd: upd, view: view}
+	sc.open[h] = &mtran{upd: upd, view: view, hasOff: map[int]bool{}}
 	return h
 }
 
@@ -431,11 +441,19 @@ func (sc *script) run(steps int) {
 				sc.out(h, k, r.Intn(4))
 			case y < 7 && t.upd:
 				if _, ok := t.view[k]; ok {
-					sc.get1(h, k) // needs the offset
-					if r.Intn(2) == 0 {
+					if !t.hasOff[k] || r.Intn(3) == 0 {
+						sc.get1(h, k) // needs the offset
+						t.hasOff[k] = true
+					}
+					// otherwise the offset returned by the previous Update is used
+					if r.Intn(3) > 0 {
 						sc.upd(h, k, r.Intn(4))
+						if r.Intn(2) == 0 {
+							sc.upd(h, k, r.Intn(4)) // update of the updated record
+						}
 					} else {
 						sc.del(h, k)
+						t.hasOff[k] = false
 					}
 				}
 			case y < 9:
@@ -535,7 +553,7 @@ var queries = []struct {
 	{"big minus other", false}, {"big intersect other", false}, {"big times (other rename a to a2) where a < 2", false},
 	{"tables", false}, {"columns where table is 'big'", false}, {"indexes", false},
 	{"big where c is 'nope'", false}, {"nonexistent", false}, {"big where", false},
-	{"other sort x", true}, {"wide sort a", true}, {"tm sort k", true}, {"big sort b, a", true},
+	{"other sort x", true}, {"mwide sort a", true}, {"stat where x is 'x1'", false}, {"stat sort x, a", true}, {"tm sort k", true}, {"big sort b, a", true},
 }
 
 func (sc *script) other() {
@@ -544,10 +562,10 @@ func (sc *script) other() {
 	case x == 0: // admin
 		sc.nextA++
 		adm := []string{
-			"create wide (a, s) key(a)", "create wide (a, s) key(a)", "alter wide create (t)",
-			"alter wide drop (t)", "alter big create (e)", "alter big drop (e)", "ensure side (p, q) key(p)",
+			"create mwide (a, s) key(a)", "create mwide (a, s) key(a)", "alter mwide create (t)",
+			"alter mwide drop (t)", "alter big create (e)", "alter big drop (e)", "ensure side (p, q) key(p)",
 			"drop side", "rename side to side2", "drop side2", "create bad (", "alter nonexistent create (z)",
-			"view vbig = big where a < 5", "drop vbig", "alter other create index(x)", "alter other drop index(x)",
+			"view vbig = big where a < 5", "drop vbig", "alter stat create index(x)", "alter stat drop index(x)",
 		}
 		a := adm[r.Intn(len(adm))]
 		sc.pair("Admin", a, func(s *side) result {
@@ -608,7 +626,7 @@ func (sc *script) other() {
 			fmt.Sprintf("delete big where a is %d", 100+r.Intn(sc.nextA+1)),
 			"update big where b is 3 set b = 3", "delete big where a > 1000",
 			fmt.Sprintf("insert { a: %d, x: 'o' } into other", 50+sc.nextA),
-			fmt.Sprintf("insert { a: %d, s: '%s' } into wide", sc.nextA, strings.Repeat("w", r.Intn(3000))),
+			fmt.Sprintf("insert { a: %d, s: '%s' } into mwide", sc.nextA, strings.Repeat("w", r.Intn(3000))),
 			"insert big into other", "update nonexistent set a = 1", "delete big where",
 		}
 		a := acts[r.Intn(len(acts))]
@@ -641,11 +659,12 @@ func (sc *script) other() {
 		sc.nextA++
 		sizes := []int{0, 1, 4000, 4087, 4096, 8200, 70000, 300000, 900000}
 		n := sizes[r.Intn(len(sizes))]
-		key := 5000 + sc.nextA
+		bigKey++
+		key := 5000 + bigKey
 		payload := strings.Repeat(string(rune('a'+sc.nextA%26)), n)
 		sc.pair("BigOutput", strconv.Itoa(n), func(s *side) result {
 			t := s.d.Transaction(true)
-			q := t.Query("wide", nil)
+			q := t.Query("mwide", nil)
 			var rb core.RecordBuilder
 			rb.Add(core.IntVal(key))
 			rb.Add(core.SuStr(payload))
@@ -661,7 +680,7 @@ func (sc *script) other() {
 			if c := t.Complete(); c != "" {
 				return result{cls: "err", msg: c}
 			}
-			ob := core.SuObjectOf(core.SuStr("wide"))
+			ob := core.SuObjectOf(core.SuStr("mwide"))
 			ob.Set(core.SuStr("a"), core.IntVal(key))
 			row, hdr, _ := s.d.Get(s.th, ob, core.Only)
 			if row == nil {
@@ -697,7 +716,7 @@ func (sc *script) other() {
 			return result{val: dig(sb.String())}
 		})
 	case x == 13:
-		tb := []string{"big", "tm", "other", "wide", "nonexistent", "tables", "vbig"}[r.Intn(7)]
+		tb := []string{"big", "tm", "other", "mwide", "nonexistent", "tables", "vbig"}[r.Intn(7)]
 		sc.pair("Schema", tb, func(s *side) result { return result{val: dig(s.d.Schema(tb))} })
 	case x == 14:
 		sc.pair("Info", "", func(s *side) result {
